@@ -150,6 +150,20 @@ func (p *Peer) record(typ byte, frag []byte) []byte {
 // Seal builds the next protected record without sending it.
 func (p *Peer) Seal(typ byte, frag []byte) []byte { return p.record(typ, frag) }
 
+// SealBadPadding builds a CBC record for the NEXT sequence number whose MAC is valid but whose padding
+// bytes were altered by mut afterwards; the sequence number is not consumed (the record is a forgery by
+// someone who holds the key, used to test that the receiver checks every padding byte).
+func (p *Peer) SealBadPadding(typ byte, frag []byte, mut func(pad []byte)) []byte {
+	if p.wr == nil {
+		return p.record(typ, frag)
+	}
+	p.wr.padMut = mut
+	r := p.record(typ, frag)
+	p.wr.padMut = nil
+	p.wseq--
+	return r
+}
+
 // SendRaw sends bytes as they are.
 func (p *Peer) SendRaw(b []byte) error { return p.L.Send(b) }
 
